@@ -237,6 +237,7 @@ class Assembly:
             sig = re.sub(r'\bfn\s+%s\b' % re.escape(a['name']), 'fn ' + a['rename'], sig, count=1)
         if a.get('vis') == 'drop':
             sig = re.sub(r'^\s*pub(\([a-z]+\))?\s+', '', sig)
+        body, c = X.r24_guard_comparison(body, bool(re.search(r'&\s*mut\s+self|\(\s*mut\s+(self|%s)\b' % re.escape(a.get('mutself', 'self')), sig))); log.append(('R24 ordering comparison in a match guard -> its method form', c))
         # loops / closures
         body = X.splice_closures(body, {k: '\n'.join(v) for k, v in sec['closures'].items()})
         body = X.splice_loops(body, {k: '\n'.join(v) for k, v in sec['loops'].items()}, {k: '\n'.join(v) for k, v in sec.get('loopends', {}).items()})
